@@ -289,12 +289,52 @@ def r3_ts(cx):
             S = r[2] if r[0] == "agg" else "?"
         bad = sorted(s for s in pre if S == "?" or not T.legal(s, S))
         if bad and key in exceptions:
+            # the exception rests on an invariant about *ancestors*; it is void if the same function may
+            # already have closed that very task through another navigation root
+            earlier = may_alias_terminal_writes(m, pa, c, recv)
+            if earlier:
+                cx.ob("C02.R3g", key + ":alias", False,
+                      "write of %s at `%s` (receiver %s) relies on `its receiver is still open`, but the same function may already have closed that task: %s" % (
+                          S, key, root_str(recv), "; ".join(earlier)), c.loc)
+                continue
             cx.ob("C02.R3g", key, True, "write of %s at `%s` (receiver %s): pre-state not bounded by local guards; accepted exception: %s" % (
                 S, key, root_str(recv), exceptions[key]), c.loc, pre=sorted(pre))
             continue
         cx.ob("C02.R3g", key, not bad,
               "write of %s at `%s` (receiver %s) has pre-state %s; illegal from %s" % (S, key, root_str(recv), sorted(pre), bad or "none"), c.loc,
               pre_state_from=how)
+
+
+def may_alias_terminal_writes(m, pa, c, recv):
+    """terminal writes of the same function that can reach site c and whose receiver is another
+    navigated task that is not known to be a non-ancestor (the act itself, an element of siblings()
+    or of children())"""
+    f = c.fn
+    out = []
+    for w in f.calls():
+        if w.q not in (T.Q_SET_STATE, T.Q_SET_ERR) or w.b == c.b:
+            continue
+        r = pa.root(f, w.args[0])
+        if r == recv:
+            continue
+        S = "Error"
+        if w.q == T.Q_SET_STATE:
+            v = pa.root(f, w.args[1])
+            S = v[2] if v[0] == "agg" else "?"
+        if S not in T.TERMINAL and S != "?":
+            continue
+        if not f.can_reach(w.b, c.b):
+            continue
+        # known non-ancestors
+        if r[0] == "param" and not r[3]:
+            continue  # the task the function was called for (the act itself)
+        if r[0] == "call" and r[1] == T.Q_CTX_TASK:
+            continue
+        src = pa.iter_source(f, ("call", r[1], r[2], ())) if r[0] == "call" else None
+        if src is not None and src[0][0] == "call" and re.search(r"Task::(siblings|children)$", src[0][1]):
+            continue
+        out.append("%s of %s at %s" % (S, (root_str(src[0]) + "[..]") if src else root_str(r), w.loc))
+    return out
 
 
 def is_dead(m, f, depth=0):
